@@ -34,7 +34,74 @@ func main() {
 		wrong.Add(1)
 		first.Do(func() { fmt.Println("WRONG " + what) })
 	}
+	// UUIDs: accepted values of different kinds (nil, max in both cases, versions 1-5) validated concurrently with every
+	// 8-byte-aligned SPLICE of two of them that is not a UUID itself — a verdict must not depend on what other callers
+	// are validating at the same moment (a shared "last accepted" memo can be torn without any data race)
+	accepted := []string{"00000000-0000-0000-0000-000000000000", "ffffffff-ffff-ffff-ffff-ffffffffffff", "FFFFFFFF-FFFF-FFFF-FFFF-FFFFFFFFFFFF",
+		"550e8400-e29b-41d4-a716-446655440000", "f47ac10b-58cc-1372-8567-0e02b2c3d479", "6ba7b810-9dad-51d1-b0b4-00c04fd430c8", "6ba7b811-9dad-21d1-90b4-00c04fd430c8", "9b2d1b6c-3f3a-3e6b-a1c2-7d5e8f901234"}
+	isAcc := map[string]bool{}
+	for _, a := range accepted {
+		isAcc[a] = true
+	}
+	var splices []string
+	for _, a := range accepted {
+		for _, b := range accepted {
+			for _, cut := range []int{8, 16, 24, 28} {
+				s := a[:cut] + b[cut:]
+				if !isAcc[s] {
+					splices = append(splices, s)
+				}
+			}
+		}
+	}
+	// expected verdicts of the splices, from the documented grammar (computed without calling the function under test)
+	wantUUID := func(s string) bool {
+		if len(s) != 36 || s[8] != '-' || s[13] != '-' || s[18] != '-' || s[23] != '-' {
+			return false
+		}
+		allSame := func(c1, c2 byte) bool {
+			for i := 0; i < 36; i++ {
+				if i == 8 || i == 13 || i == 18 || i == 23 {
+					continue
+				}
+				if s[i] != c1 && s[i] != c2 {
+					return false
+				}
+			}
+			return true
+		}
+		for i := 0; i < 36; i++ {
+			if i == 8 || i == 13 || i == 18 || i == 23 {
+				continue
+			}
+			c := s[i]
+			if !(c >= '0' && c <= '9' || c >= 'a' && c <= 'f' || c >= 'A' && c <= 'F') {
+				return false
+			}
+		}
+		if allSame('0', '0') || allSame('f', 'F') {
+			return true
+		}
+		v, r := s[14], s[19]
+		return v >= '1' && v <= '5' && (r == '8' || r == '9' || r == 'a' || r == 'b' || r == 'A' || r == 'B')
+	}
 	var wg sync.WaitGroup
+	for g := 0; g < goroutines; g++ {
+		wg.Add(1)
+		go func(g int) {
+			defer wg.Done()
+			for i := 0; i < iters*4; i++ {
+				a := accepted[(i+g)%%len(accepted)]
+				if !validationhelper.IsValidUUID(a) {
+					bad("IsValidUUID rejects " + a)
+				}
+				sp := splices[(i*13+g*7)%%len(splices)]
+				if got := validationhelper.IsValidUUID(sp); got != wantUUID(sp) {
+					bad(fmt.Sprintf("IsValidUUID(%%q) = %%v while other goroutines validate other UUIDs", sp, got))
+				}
+			}
+		}(g)
+	}
 	for g := 0; g < goroutines; g++ {
 		wg.Add(1)
 		go func(g int) {
@@ -93,12 +160,29 @@ func hraceMain(args []string) {
 		fmt.Fprintln(os.Stderr, "helpers race program does not build:", tail(o, 3000))
 		os.Exit(3)
 	}
-	c := exec.Command(bin)
-	c.Env = goEnv
-	o, err := c.CombinedOutput()
-	text := string(o)
-	res["ok"] = err == nil && !strings.Contains(text, "DATA RACE") && strings.Contains(text, "DONE wrong= 0")
-	res["race"] = strings.Contains(text, "DATA RACE") || strings.Contains(text, "concurrent map")
+	// several FRESH processes: in each one the very first calls of every helper happen concurrently (lazily built shared
+	// state — an environment, a table — is initialised under contention only then)
+	runs := 4
+	if tier == "thorough" {
+		runs = 10
+	}
+	ok, race, text := true, false, ""
+	for i := 0; i < runs; i++ {
+		c := exec.Command(bin)
+		c.Env = goEnv
+		o, err := c.CombinedOutput()
+		t := string(o)
+		if err != nil || strings.Contains(t, "DATA RACE") || !strings.Contains(t, "DONE wrong= 0") {
+			ok = false
+			race = race || strings.Contains(t, "DATA RACE") || strings.Contains(t, "concurrent map")
+			if text == "" {
+				text = fmt.Sprintf("process %d of %d: ", i+1, runs) + t
+			}
+		}
+	}
+	res["processes"] = runs
+	res["ok"] = ok
+	res["race"] = race
 	res["output"] = tail(text, 5000)
 	_ = json.NewEncoder(out).Encode(res)
 }
